@@ -14,6 +14,10 @@ import os
 
 import vlib
 
+import re
+
+_CASE_RE = re.compile(r'^\{"case":(\d+),')
+
 ALL_INVARIANTS = ["FlowRefinesSem", "NextArgIgnored", "StackDiscipline", "EndAbsorbing", "EndReportedOnlyWhenEnded",
                   "PendingNextIsNoOp", "DoneNeverWaits", "WaitingOnlyWhilePending", "CountIsJumpsOut",
                   "VisitedIffPositive", "UnknownIsZero", "NextStatementFrozen"]
@@ -75,10 +79,13 @@ def nonvacuity(ctx, cases_path, bug, invariants, properties=(), expect=None, **k
 
 
 def replay(ctx, cases_path, behs, layouts=None):
-    """spec -> code.  Returns (stats, diffs)."""
-    bp = ctx.path("beh%d.ndjson" % ctx.n_tlc)
-    vlib.write_ndjson(bp, behs)
-    out = ctx.path("diffs%d.ndjson" % ctx.n_tlc)
+    """spec -> code.  behs: list of behaviours, or the path of an ndjson file.  Returns (stats, diffs)."""
+    if isinstance(behs, str):
+        bp = behs
+    else:
+        bp = ctx.path("beh%d.ndjson" % ctx.n_tlc)
+        vlib.write_ndjson(bp, behs)
+    out = ctx.path("diffs%d_%d.ndjson" % (ctx.n_tlc, len(os.listdir(ctx.dir))))
     args = ["core", "replay", "--cases", cases_path, "--beh", bp, "--out", out]
     if layouts:
         args += ["--layouts", layouts]
@@ -135,7 +142,7 @@ class TraceIndex:
 
 
 def beh_payload(cases_by_id, behs, d):
-    b = behs[d["beh"]]
+    b = behs[d["beh"]]      # behs: list, or {index: behaviour}
     return {"kind": "replay", "case": cases_by_id[d["case"]], "steps": b["steps"][: d["step"] + 1] if d["step"] >= 0 else [],
             "layout": d.get("layout"), "texts": d.get("texts"),
             "diff": {k: d[k] for k in ("step", "field", "exp", "got", "panic") if k in d}}
@@ -218,16 +225,18 @@ def run_core_check(ctx, spec):
         cfgname, cfgpath = mc_cfg(ctx, "MC_%s_%s.cfg" % (ctx.prop, sc["family"]), invariants=sc["invariants"],
                                   properties=sc.get("properties", []), **mc)
         r = model_check(ctx, cases_path, cfgname, cfgpath, label="MC_Runner[%s]: %s" % (sc["family"], ",".join(sc["invariants"] + sc.get("properties", []))))
-        behs = r.printed("BEH")
-        if not behs:
+        beh_path = ctx.path("beh_%s_%d.ndjson" % (sc["family"], ctx.n_tlc))
+        nbeh = r.printed_to_file("BEH", beh_path)
+        if not nbeh:
             raise vlib.MachineryError("MC_Runner emitted no behaviour")
         for bug, inv, props in sc.get("bugs", []):
             kw = {k: v for k, v in mc.items() if k in ("max_calls", "max_polls", "after_end", "host_writes", "max_host_sets",
                                                        "max_snaps", "max_restores")}
             nonvac[bug] = nonvacuity(ctx, cases_path, bug, inv, props, **kw)
         layouts = "random" if sc.get("layouts") else None
-        stats, diffs = replay(ctx, cases_path, behs, layouts=layouts)
-        for d in diffs:
+        stats, diffs = replay(ctx, cases_path, beh_path, layouts=layouts)
+        behs = vlib.read_ndjson_lines(beh_path, [d["beh"] for d in diffs[:200]] + [nbeh // 2])
+        for d in diffs[:200]:
             steps = behs[d["beh"]]["steps"]
             prior = []
             for s in steps[: max(d["step"], 0)]:
@@ -247,11 +256,17 @@ def run_core_check(ctx, spec):
             else:
                 oos += 1
         nt_ids = {c["id"] for c in cases if nontriv_fn(c)}
-        nontrivial += sum(1 for b in behs if b["case"] in nt_ids)
+        nt = 0
+        with open(beh_path) as f:
+            for line in f:
+                m = _CASE_RE.match(line)
+                if m and int(m.group(1)) in nt_ids:
+                    nt += 1
+        nontrivial += nt
         evaluations += stats["behaviours"]
         ctx.cover(**{"programs_%s" % sc["family"]: len(cases), "behaviours_replayed": stats["behaviours"], "replay_steps": stats["steps"]})
-        samples.append({"family": sc["family"], "rendered": None, "case_id": cases[0]["id"],
-                        "behaviour": [{"in": s.get("in"), "out": s.get("out")} for s in behs[len(behs) // 2]["steps"][:5]]})
+        samples.append({"family": sc["family"], "case_id": cases[0]["id"],
+                        "behaviour": [{"in": s.get("in"), "out": s.get("out")} for s in behs[nbeh // 2]["steps"][:5]]})
 
     for cs in spec.get("cs", []):
         path = gen_cases(ctx, cs["family"], cs["n"][t], "cases_cs_%s.ndjson" % cs["family"], storer=cs.get("storer"))
